@@ -14,6 +14,7 @@ from ..parser_exceptions import (
     ParserDataDuplicateException,
     ParserDataSyntaxException,
     ParserVariableException,
+    MemorySizeException,
 )
 
 from architecture_simulator.isa.parser import Parser
@@ -446,6 +447,11 @@ class RiscvParser(Parser):
                         {line_parsed.get("name"): (address_counter, 4)}
                     )
                     address_counter += 4 * num_words
+
+                # the data segment must fit below the end of the address space (addresses would wrap around otherwise)
+                address_limit = self.state.memory.get_address_range().stop
+                if address_counter > address_limit:
+                    raise MemorySizeException(address_limit // 4)
 
     def _process_pseudo_instructions(self) -> None:
         """Converts pseudo instructions in self.text into regular instructions, and variables into addresses."""
